@@ -257,8 +257,12 @@ impl Iterator for NodeSplitIterator<'_> {
         let (char_end, byte_end) = if idx + 1 == self.splits.len() {
             (self.char_end, self.byte_end)
         } else {
-            let byte_end = byte_start as usize + word_info.head_word_length();
+            // units which do not fit into the parent are clamped to its end
+            let byte_end = (byte_start as usize + word_info.head_word_length())
+                .min(self.byte_end as usize);
             let char_end = self.text.ch_idx(byte_end);
+            // keep the boundary on the beginning of a character
+            let byte_end = self.text.to_curr_byte_idx(char_end);
             (char_end as u16, byte_end as u16)
         };
 
